@@ -12,6 +12,7 @@ import (
 const c07Rule = "rapid-generated histories as in C01/C02/C04 and, one in six, as in C09 (re-bucketing to another bit size, refused opens) (all primaries, small file sizes, GC cycles with budgets, close/reopen through snapshot, rescan and unusable snapshot); after every Flush, every completed GC cycle, every reopen and every Close an independent reader of the file formats (sharing no code with the repository) checks every clause of the invariant: " +
 	"live bucket table = own rescan of the index files (= bucket snapshot after Close); each bucket -> complete, non-deleted, correctly tagged record in an existing file at or after the header's first file; entries sorted, pairwise prefix-free, distinct locations; each entry -> complete non-deleted primary record of the recorded size whose digest has the bucket bits and the stored prefix; no live location in .free/.free.gc; primary first-file <= referenced files; " +
 	"concurrent part: " + stressRuleText + " - here only the fsck of the directory after Close is judged (collectors off / index GC on the CID primary / both collectors with keys only added); " +
+	suspRuleText + " (here only the fsck clauses are judged); " +
 	"crash part: workloads of the C03 generator run under the crash recorder; drawn crash images (captured and torn) are restored, opened, and the same invariant is checked on the recovered store before and after a flush; non-trivial = some checked image had >=2 index files or >=2 primary files, >=1 deleted-marked record and >=1 bucket holding >=2 entries; distinct = distinct canonical JSON of the case"
 
 type fsckAgg struct {
@@ -106,6 +107,19 @@ func TestC07(t *testing.T) {
 			v := viol("fsck|after-recovery@"+crashSite(rp)+"|"+clause, -1, "%s", detail)
 			ev.Report(v, rp)
 			t.Fatalf("replay: %v", v)
+		}
+		return
+	}
+	if envReplay != "" && bytes.Contains(readReplayRaw(envReplay).Case, []byte(`"fg"`)) {
+		var sc SuspCase
+		readReplay(envReplay, &sc)
+		for i := 0; i < 10; i++ {
+			_, v := runSusp(sc, true)
+			ev.Record(sc, true, "suspended-call-crash")
+			if v != nil && strings.HasPrefix(v.Signature, "fsck|") {
+				ev.Report(v, sc)
+				t.Fatalf("replay: %v", v)
+			}
 		}
 		return
 	}
@@ -227,7 +241,11 @@ func TestC07(t *testing.T) {
 	ev.Extra["crash_images_checked"] = crashStates
 	// Schedules: the quiescent state after free-running concurrent use.
 	if !t.Failed() {
-		runStressCampaign(t, ev, []int{stressFlush, stressIndexGC, stressAppendOnly}, budget(2400, 5000), true)
+		runStressCampaign(t, ev, []int{stressFlush, stressIndexGC, stressAppendOnly, stressFlush, stressIndexGC, stressAppendOnly, stressRelocation}, budget(2400, 5000), true)
+	}
+	// Crash images taken while a call is suspended between its sub-steps.
+	if !t.Failed() {
+		runSuspCampaign(t, ev, budget(1600, 4000), true, func(v *Violation) bool { return strings.HasPrefix(v.Signature, "fsck|") })
 	}
 	ev.finish(t)
 }
